@@ -368,9 +368,17 @@ func (e *Entry) errorf(format string, v ...interface{}) {
 
 // addError appends err to the list of errors on e if err is not nil.
 func (e *Entry) addError(err error) {
-	if err != nil {
-		e.Errors = append(e.Errors, err)
+	if err == nil {
+		return
 	}
+	for _, have := range e.Errors {
+		if have == err {
+			// Already recorded here: the errors of a subtree arrive once
+			// for every copy of it that is merged into e.
+			return
+		}
+	}
+	e.Errors = append(e.Errors, err)
 }
 
 // importErrors imports all the errors from c and its children into e.
